@@ -997,6 +997,8 @@ func stmtLevelCall(n ast.Node) *ast.CallExpr {
 		if len(x.Values) == 1 {
 			e = x.Values[0]
 		}
+	case ast.Expr:
+		e = x // a bare expression node: range operand, branch condition, switch tag
 	}
 	if e == nil {
 		return nil
